@@ -1054,28 +1054,24 @@ mod v_iface_sixlowpan {
         }
     }
 
-    /// one received fragment; returns (delivered, length, copy if the length is GD)
-    fn rx_feed(inner: &mut InterfaceInner, fb: &mut FragmentsBuffer, r802: &Ieee802154Repr, fr: &[u8; 13]) -> (bool, usize, [u8; GD]) {
-        let mut copy = [0u8; GD];
+    /// one received fragment; returns (delivered, length, octet k of the delivered datagram) -- no copy of the
+    /// datagram: its length is symbolic for CBMC and a symbolic-length copy out of the 256-octet slot costs > 8 GB
+    fn rx_feed(inner: &mut InterfaceInner, fb: &mut FragmentsBuffer, r802: &Ieee802154Repr, fr: &[u8; 13], k: usize) -> (bool, usize, u8) {
         crate::vdump!("FRAGMENT {:02x?}", fr);
         match inner.process_sixlowpan_fragment(r802, &fr[..], fb) {
             Some(d) => {
                 let n = d.len();
                 crate::vdump!("DELIVERED {} octets {:02x?}", n, d);
-                if n == GD {
-                    copy.copy_from_slice(d);
-                }
-                (true, n, copy)
+                (true, n, if k < n { d[k] } else { 0 })
             }
-            None => (false, 0, copy),
+            None => (false, 0, 0),
         }
     }
 
-    fn assert_is_ghost(g: &GhostD, n: usize, d: &[u8; GD]) {
+    fn assert_is_ghost(g: &GhostD, n: usize, k: usize, dk: u8) {
         assert!(n == GD, "prop:c20_reassembled_length");
-        let k = any_lt(GD);
         if k != 46 && k != 47 {
-            assert!(d[k] == ghost_byte(g, k), "prop:c20_reassembled_datagram_equals_sent_datagram");
+            assert!(dk == ghost_byte(g, k), "prop:c20_reassembled_datagram_equals_sent_datagram");
         }
     }
 
@@ -1383,6 +1379,41 @@ mod v_iface_sixlowpan {
         kani::cover!(got != 0 && data[0] != 0, "checksum computed");
     }
 
+    // @harness props=C20 cfg=KL tier=q to=900 mem=4 unwind=20 opts=nomem covers=2 funcs=InterfaceInner::sixlowpan_to_ipv6;decompress_udp;UdpRepr::emit_header;Ipv6Repr::emit bounds=what_process_sixlowpan_fragment_does_with_a_FRAG1:_shape_of_lowpan_decompress_udp_ports0_with_total_len=Some(datagram_size),_datagram_size_52..=256_symbolic,_4_of_the_UDP_data_octets_in_this_fragment;_the_rest_of_reassembly_(PacketAssembler)_is_C12's_reasm_*_harnesses_and_lowpan_frag_rx_*_(thorough)
+    #[kani::proof]
+    pub(crate) fn lowpan_decompress_frag1_udp() {
+        let s = S_UDP0;
+        let f = any_fields(&s);
+        let r802 = ieee_of(&s, &f);
+        let mut t = [0u8; TL];
+        let lay = tmpl(&s, &f, &mut t);
+        let mut e = [0u8; 64];
+        let m = expected(&s, &f, &mut e);
+        let total = any_le(256);
+        kani::assume(total >= m);
+        // RFC 4944 5.3: datagram_size covers the whole datagram, so the lengths in the headers are those of the whole
+        e[4] = ((total - 40) >> 8) as u8;
+        e[5] = (total - 40) as u8;
+        e[44] = e[4];
+        e[45] = e[5];
+        let mut out: [u8; 64] = kani::any();
+        let r = InterfaceInner::sixlowpan_to_ipv6(&[], &r802, &t[..lay.len], Some(total), &mut out[..]);
+        crate::vdump!("total={} RESULT {:?}\nGOT      {:02x?}\nEXPECTED {:02x?}", total, r, &out[..m], &e[..m]);
+        // the returned length is what this fragment contributes to the reassembly buffer
+        assert!(matches!(r, Ok(l) if l == m), "prop:c20_decompressed_length");
+        let k = any_lt(64);
+        kani::assume(k < m && k != 46 && k != 47);
+        if k == 4 || k == 5 {
+            assert!(out[k] == e[k], "prop:c20_first_fragment_ipv6_payload_length_is_of_the_whole_datagram");
+        } else if k == 44 || k == 45 {
+            assert!(out[k] == e[k], "prop:c20_first_fragment_udp_length_is_of_the_whole_datagram");
+        } else {
+            assert!(out[k] == e[k], "prop:c20_decompressed_ipv6_header");
+        }
+        kani::cover!(total == 256 && k == 45, "largest datagram, UDP length compared");
+        kani::cover!(total == m && k == m - 1, "single-fragment size, last octet compared");
+    }
+
     // @harness props=C20 cfg=KL tier=t to=900 mem=4 unwind=20 opts=nomem covers=1 funcs=InterfaceInner::sixlowpan_to_ipv6;UdpRepr::emit_header bounds=shape_of_lowpan_decompress_udp_ports0;_RFC_6282_4.3.2:_an_in-line_checksum_is_the_UDP_checksum_of_the_datagram_and_must_reappear_in_the_UDP_header
     #[kani::proof]
     pub(crate) fn lowpan_decompress_udp_checksum_kept() {
@@ -1418,74 +1449,74 @@ mod v_iface_sixlowpan {
     }
 
     // ---- arbitrary bytes behind a fixed IPHC base header: no panic, termination (unwinding assertions stay on), length bound
-    // @harness props=C03,C20 cfg=KL tier=q to=1500 mem=8 unwind=4 covers=2 funcs=InterfaceInner::sixlowpan_to_ipv6;SixlowpanIphcPacket::check_len;SixlowpanIphcRepr::parse;decompress_ext_hdr;decompress_udp;decompress_next_header;SixlowpanUdpNhcRepr::parse;SixlowpanExtHeaderRepr::parse bounds=IPHC_7e_33_(TF=11_NH=1_HLIM=64_SAM=11_DAM=11),_then_the_UDP-NHC_octet_f0_+_8_arbitrary_octets;_exactly_that_length_(a_symbolic_length_costs_8x:_see_lowpan_decompress_truncated);_link-layer_addresses_None/absent/short/extended;_0_or_1_context;_total_len_None_or_40..=256;_72-octet_output_buffer
+    // @harness props=C03,C20 cfg=KL tier=q to=1500 mem=8 unwind=4 covers=2 funcs=InterfaceInner::sixlowpan_to_ipv6;SixlowpanIphcPacket::check_len;SixlowpanIphcRepr::parse;decompress_ext_hdr;decompress_udp;decompress_next_header;SixlowpanUdpNhcRepr::parse;SixlowpanExtHeaderRepr::parse bounds=IPHC_7e_33_(TF=11_NH=1_HLIM=64_SAM=11_DAM=11),_then_the_UDP-NHC_octet_f0_+_8_arbitrary_octets;_exactly_that_length_(a_symbolic_length_costs_8x_the_steps:_measured);_link-layer_addresses_None/absent/short/extended;_0_or_1_context;_total_len_None_or_40..=256;_72-octet_output_buffer
     #[kani::proof]
     pub(crate) fn lowpan_decompress_free_7e33_udp() {
         free_case::<11>(0x7e, 0x33, 0xf0, 2);
     }
 
-    // @harness props=C03,C20 cfg=KL tier=q to=1500 mem=8 unwind=6 covers=2 funcs=InterfaceInner::sixlowpan_to_ipv6;SixlowpanIphcPacket::check_len;SixlowpanIphcRepr::parse;decompress_ext_hdr;decompress_udp;decompress_next_header;SixlowpanUdpNhcRepr::parse;SixlowpanExtHeaderRepr::parse bounds=IPHC_7e_33_(TF=11_NH=1_SAM=11_DAM=11),_then_the_extension-header_NHC_octet_e1_(hop-by-hop,_next_header_compressed)_+_4_arbitrary_octets_(chains_of_<=2_extension_headers);_exactly_that_length_(a_symbolic_length_costs_8x:_see_lowpan_decompress_truncated);_link-layer_addresses_None/absent/short/extended;_0_or_1_context;_total_len_None_or_40..=256;_72-octet_output_buffer
+    // @harness props=C03,C20 cfg=KL tier=q to=1500 mem=8 unwind=5 covers=2 funcs=InterfaceInner::sixlowpan_to_ipv6;SixlowpanIphcPacket::check_len;SixlowpanIphcRepr::parse;decompress_ext_hdr;decompress_udp;decompress_next_header;SixlowpanUdpNhcRepr::parse;SixlowpanExtHeaderRepr::parse bounds=IPHC_7e_33_(TF=11_NH=1_SAM=11_DAM=11),_then_the_extension-header_NHC_octet_e1_(hop-by-hop,_next_header_compressed)_+_4_arbitrary_octets_(chains_of_<=2_extension_headers);_exactly_that_length_(a_symbolic_length_costs_8x_the_steps:_measured);_link-layer_addresses_None/absent/short/extended;_0_or_1_context;_total_len_None_or_40..=256;_72-octet_output_buffer
     #[kani::proof]
     pub(crate) fn lowpan_decompress_free_7e33_ext() {
         free_case::<7>(0x7e, 0x33, 0xe1, 2);
     }
 
-    // @harness props=C03,C20 cfg=KL tier=q to=1500 mem=8 unwind=4 covers=2 funcs=InterfaceInner::sixlowpan_to_ipv6;SixlowpanIphcPacket::check_len;SixlowpanIphcRepr::parse;decompress_ext_hdr;decompress_udp;decompress_next_header;SixlowpanUdpNhcRepr::parse;SixlowpanExtHeaderRepr::parse bounds=IPHC_68_4b_(TF=01_NH=0_HLIM=00_SAC=1_SAM=00_(unspecified)_M=1_DAM=11),_then_12_arbitrary_octets:_ECN/flow_label,_in-line_next_header_and_hop_limit,_multicast_octet,_payload;_exactly_that_length_(a_symbolic_length_costs_8x:_see_lowpan_decompress_truncated);_link-layer_addresses_None/absent/short/extended;_0_or_1_context;_total_len_None_or_40..=256;_72-octet_output_buffer
+    // @harness props=C03,C20 cfg=KL tier=q to=1500 mem=8 unwind=4 covers=2 funcs=InterfaceInner::sixlowpan_to_ipv6;SixlowpanIphcPacket::check_len;SixlowpanIphcRepr::parse;decompress_ext_hdr;decompress_udp;decompress_next_header;SixlowpanUdpNhcRepr::parse;SixlowpanExtHeaderRepr::parse bounds=IPHC_68_4b_(TF=01_NH=0_HLIM=00_SAC=1_SAM=00_(unspecified)_M=1_DAM=11),_then_12_arbitrary_octets:_ECN/flow_label,_in-line_next_header_and_hop_limit,_multicast_octet,_payload;_exactly_that_length_(a_symbolic_length_costs_8x_the_steps:_measured);_link-layer_addresses_None/absent/short/extended;_0_or_1_context;_total_len_None_or_40..=256;_72-octet_output_buffer
     #[kani::proof]
     pub(crate) fn lowpan_decompress_free_684b() {
         free_case::<14>(0x68, 0x4b, 0x00, 0);
     }
 
-    // @harness props=C03,C20 cfg=KL tier=t to=1500 mem=8 unwind=4 covers=2 funcs=InterfaceInner::sixlowpan_to_ipv6;SixlowpanIphcPacket::check_len;SixlowpanIphcRepr::parse;decompress_ext_hdr;decompress_udp;decompress_next_header;SixlowpanUdpNhcRepr::parse;SixlowpanExtHeaderRepr::parse bounds=IPHC_7f_f7_(NH=1_HLIM=255_CID=1_SAC=1_SAM=11_DAC=1_DAM=11),_arbitrary_CID_octet,_UDP-NHC_octet_f0_+_8_arbitrary_octets;_exactly_that_length_(a_symbolic_length_costs_8x:_see_lowpan_decompress_truncated);_link-layer_addresses_None/absent/short/extended;_0_or_1_context;_total_len_None_or_40..=256;_72-octet_output_buffer
+    // @harness props=C03,C20 cfg=KL tier=t to=1500 mem=8 unwind=4 covers=2 funcs=InterfaceInner::sixlowpan_to_ipv6;SixlowpanIphcPacket::check_len;SixlowpanIphcRepr::parse;decompress_ext_hdr;decompress_udp;decompress_next_header;SixlowpanUdpNhcRepr::parse;SixlowpanExtHeaderRepr::parse bounds=IPHC_7f_f7_(NH=1_HLIM=255_CID=1_SAC=1_SAM=11_DAC=1_DAM=11),_arbitrary_CID_octet,_UDP-NHC_octet_f0_+_8_arbitrary_octets;_exactly_that_length_(a_symbolic_length_costs_8x_the_steps:_measured);_link-layer_addresses_None/absent/short/extended;_0_or_1_context;_total_len_None_or_40..=256;_72-octet_output_buffer
     #[kani::proof]
     pub(crate) fn lowpan_decompress_free_7ff7_udp() {
         free_case::<12>(0x7f, 0xf7, 0xf0, 3);
     }
 
-    // @harness props=C03,C20 cfg=KL tier=t to=1500 mem=8 unwind=6 covers=2 funcs=InterfaceInner::sixlowpan_to_ipv6;SixlowpanIphcPacket::check_len;SixlowpanIphcRepr::parse;decompress_ext_hdr;decompress_udp;decompress_next_header;SixlowpanUdpNhcRepr::parse;SixlowpanExtHeaderRepr::parse bounds=IPHC_7f_f7_(NH=1_CID=1_SAC=1_SAM=11_DAC=1_DAM=11),_arbitrary_CID_octet,_extension-header_NHC_octet_e0_+_5_arbitrary_octets;_exactly_that_length_(a_symbolic_length_costs_8x:_see_lowpan_decompress_truncated);_link-layer_addresses_None/absent/short/extended;_0_or_1_context;_total_len_None_or_40..=256;_72-octet_output_buffer
+    // @harness props=C03,C20 cfg=KL tier=t to=1500 mem=8 unwind=5 covers=2 funcs=InterfaceInner::sixlowpan_to_ipv6;SixlowpanIphcPacket::check_len;SixlowpanIphcRepr::parse;decompress_ext_hdr;decompress_udp;decompress_next_header;SixlowpanUdpNhcRepr::parse;SixlowpanExtHeaderRepr::parse bounds=IPHC_7f_f7_(NH=1_CID=1_SAC=1_SAM=11_DAC=1_DAM=11),_arbitrary_CID_octet,_extension-header_NHC_octet_e0_+_4_arbitrary_octets;_exactly_that_length_(a_symbolic_length_costs_8x_the_steps:_measured);_link-layer_addresses_None/absent/short/extended;_0_or_1_context;_total_len_None_or_40..=256;_72-octet_output_buffer
     #[kani::proof]
     pub(crate) fn lowpan_decompress_free_7ff7_ext() {
-        free_case::<9>(0x7f, 0xf7, 0xe0, 3);
+        free_case::<8>(0x7f, 0xf7, 0xe0, 3);
     }
 
-    // @harness props=C03,C20 cfg=KL tier=t to=1500 mem=8 unwind=4 covers=2 funcs=InterfaceInner::sixlowpan_to_ipv6;SixlowpanIphcPacket::check_len;SixlowpanIphcRepr::parse;decompress_ext_hdr;decompress_udp;decompress_next_header;SixlowpanUdpNhcRepr::parse;SixlowpanExtHeaderRepr::parse bounds=IPHC_65_2a_(TF=00_NH=1_HLIM=1_SAM=10_M=1_DAM=10),_10_arbitrary_header_octets,_UDP-NHC_octet_f0_+_6_arbitrary_octets;_exactly_that_length_(a_symbolic_length_costs_8x:_see_lowpan_decompress_truncated);_link-layer_addresses_None/absent/short/extended;_0_or_1_context;_total_len_None_or_40..=256;_72-octet_output_buffer
+    // @harness props=C03,C20 cfg=KL tier=t to=1500 mem=8 unwind=4 covers=2 funcs=InterfaceInner::sixlowpan_to_ipv6;SixlowpanIphcPacket::check_len;SixlowpanIphcRepr::parse;decompress_ext_hdr;decompress_udp;decompress_next_header;SixlowpanUdpNhcRepr::parse;SixlowpanExtHeaderRepr::parse bounds=IPHC_65_2a_(TF=00_NH=1_HLIM=1_SAM=10_M=1_DAM=10),_10_arbitrary_header_octets,_UDP-NHC_octet_f0_+_6_arbitrary_octets;_exactly_that_length_(a_symbolic_length_costs_8x_the_steps:_measured);_link-layer_addresses_None/absent/short/extended;_0_or_1_context;_total_len_None_or_40..=256;_72-octet_output_buffer
     #[kani::proof]
     pub(crate) fn lowpan_decompress_free_652a_udp() {
         free_case::<19>(0x65, 0x2a, 0xf0, 12);
     }
 
-    // @harness props=C03,C20 cfg=KL tier=t to=1500 mem=8 unwind=4 covers=2 funcs=InterfaceInner::sixlowpan_to_ipv6;SixlowpanIphcPacket::check_len;SixlowpanIphcRepr::parse;decompress_ext_hdr;decompress_udp;decompress_next_header;SixlowpanUdpNhcRepr::parse;SixlowpanExtHeaderRepr::parse bounds=IPHC_72_a6_(TF=10_NH=0_HLIM=64_CID=1_SAM=10_DAC=1_DAM=10),_then_12_arbitrary_octets;_exactly_that_length_(a_symbolic_length_costs_8x:_see_lowpan_decompress_truncated);_link-layer_addresses_None/absent/short/extended;_0_or_1_context;_total_len_None_or_40..=256;_72-octet_output_buffer
+    // @harness props=C03,C20 cfg=KL tier=t to=1500 mem=8 unwind=4 covers=2 funcs=InterfaceInner::sixlowpan_to_ipv6;SixlowpanIphcPacket::check_len;SixlowpanIphcRepr::parse;decompress_ext_hdr;decompress_udp;decompress_next_header;SixlowpanUdpNhcRepr::parse;SixlowpanExtHeaderRepr::parse bounds=IPHC_72_a6_(TF=10_NH=0_HLIM=64_CID=1_SAM=10_DAC=1_DAM=10),_then_12_arbitrary_octets;_exactly_that_length_(a_symbolic_length_costs_8x_the_steps:_measured);_link-layer_addresses_None/absent/short/extended;_0_or_1_context;_total_len_None_or_40..=256;_72-octet_output_buffer
     #[kani::proof]
     pub(crate) fn lowpan_decompress_free_72a6() {
         free_case::<14>(0x72, 0xa6, 0x00, 0);
     }
 
-    // @harness props=C03,C20 cfg=KL tier=t to=1500 mem=8 unwind=4 covers=2 funcs=InterfaceInner::sixlowpan_to_ipv6;SixlowpanIphcPacket::check_len;SixlowpanIphcRepr::parse;decompress_ext_hdr;decompress_udp;decompress_next_header;SixlowpanUdpNhcRepr::parse;SixlowpanExtHeaderRepr::parse bounds=IPHC_7e_03_(SAM=00_(128_bits_in-line)_DAM=11),_16_arbitrary_address_octets,_UDP-NHC_octet_f0_+_4_arbitrary_octets;_exactly_that_length_(a_symbolic_length_costs_8x:_see_lowpan_decompress_truncated);_link-layer_addresses_None/absent/short/extended;_0_or_1_context;_total_len_None_or_40..=256;_72-octet_output_buffer
+    // @harness props=C03,C20 cfg=KL tier=t to=1500 mem=8 unwind=4 covers=2 funcs=InterfaceInner::sixlowpan_to_ipv6;SixlowpanIphcPacket::check_len;SixlowpanIphcRepr::parse;decompress_ext_hdr;decompress_udp;decompress_next_header;SixlowpanUdpNhcRepr::parse;SixlowpanExtHeaderRepr::parse bounds=IPHC_7e_03_(SAM=00_(128_bits_in-line)_DAM=11),_16_arbitrary_address_octets,_UDP-NHC_octet_f0_+_4_arbitrary_octets;_exactly_that_length_(a_symbolic_length_costs_8x_the_steps:_measured);_link-layer_addresses_None/absent/short/extended;_0_or_1_context;_total_len_None_or_40..=256;_72-octet_output_buffer
     #[kani::proof]
     pub(crate) fn lowpan_decompress_free_7e03_udp() {
         free_case::<23>(0x7e, 0x03, 0xf0, 18);
     }
 
-    // @harness props=C03,C20 cfg=KL tier=t to=1500 mem=8 unwind=4 covers=2 funcs=InterfaceInner::sixlowpan_to_ipv6;SixlowpanIphcPacket::check_len;SixlowpanIphcRepr::parse;decompress_ext_hdr;decompress_udp;decompress_next_header;SixlowpanUdpNhcRepr::parse;SixlowpanExtHeaderRepr::parse bounds=IPHC_7a_31_(NH=0_HLIM=64_SAM=11_DAM=01_(64_bits_in-line)),_then_12_arbitrary_octets;_exactly_that_length_(a_symbolic_length_costs_8x:_see_lowpan_decompress_truncated);_link-layer_addresses_None/absent/short/extended;_0_or_1_context;_total_len_None_or_40..=256;_72-octet_output_buffer
+    // @harness props=C03,C20 cfg=KL tier=t to=1500 mem=8 unwind=4 covers=2 funcs=InterfaceInner::sixlowpan_to_ipv6;SixlowpanIphcPacket::check_len;SixlowpanIphcRepr::parse;decompress_ext_hdr;decompress_udp;decompress_next_header;SixlowpanUdpNhcRepr::parse;SixlowpanExtHeaderRepr::parse bounds=IPHC_7a_31_(NH=0_HLIM=64_SAM=11_DAM=01_(64_bits_in-line)),_then_12_arbitrary_octets;_exactly_that_length_(a_symbolic_length_costs_8x_the_steps:_measured);_link-layer_addresses_None/absent/short/extended;_0_or_1_context;_total_len_None_or_40..=256;_72-octet_output_buffer
     #[kani::proof]
     pub(crate) fn lowpan_decompress_free_7a31() {
         free_case::<14>(0x7a, 0x31, 0x00, 0);
     }
 
     // ---- 4. fragmentation on transmit (FRAGN from the state FRAG1 leaves: quick; FRAG1 through the real dispatch: thorough)
-    // @harness props=C20 cfg=KL tier=q to=1500 mem=6 unwind=20 opts=nomem,fs256 covers=2 funcs=InterfaceInner::dispatch_ieee802154_frag;InterfaceInner::dispatch_sixlowpan_frag;SixlowpanFragRepr::emit;Ieee802154Repr::emit bounds=UDP_datagram_with_96_payload_octets_(one_more_than_fits_one_frame):_FRAG1_+_1_FRAGN_of_8_octets;_payload,_checksum_and_extended_link_addresses_symbolic;_fragmenter_state_after_FRAG1_written_by_the_harness_(asserted_for_the_real_code_in_lowpan_frag_tx_96)
+    // @harness props=C20 cfg=KL tier=q to=1500 mem=4 unwind=20 opts=nomem,fs256 covers=2 funcs=InterfaceInner::dispatch_ieee802154_frag;InterfaceInner::dispatch_sixlowpan_frag;SixlowpanFragRepr::emit;Ieee802154Repr::emit bounds=UDP_datagram_with_96_payload_octets_(one_more_than_fits_one_frame):_FRAG1_+_1_FRAGN_of_8_octets;_payload,_checksum_and_extended_link_addresses_symbolic;_fragmenter_state_after_FRAG1_written_by_the_harness_(asserted_for_the_real_code_in_lowpan_frag_tx_96)
     #[kani::proof]
     pub(crate) fn lowpan_fragn_tx_96() {
         frag_tx_case::<96>(2, Via::Parts);
     }
 
-    // @harness props=C20 cfg=KL tier=t to=1500 mem=6 unwind=20 opts=nomem,fs256 covers=2 funcs=InterfaceInner::dispatch_ieee802154_frag;InterfaceInner::dispatch_sixlowpan_frag;SixlowpanFragRepr::emit;Ieee802154Repr::emit bounds=UDP_datagram_with_184_payload_octets:_exactly_two_full_frames;_payload,_checksum_and_extended_link_addresses_symbolic;_fragmenter_state_after_FRAG1_written_by_the_harness_(asserted_for_the_real_code_in_lowpan_frag_tx_184)
+    // @harness props=C20 cfg=KL tier=t to=1500 mem=4 unwind=20 opts=nomem,fs256 covers=2 funcs=InterfaceInner::dispatch_ieee802154_frag;InterfaceInner::dispatch_sixlowpan_frag;SixlowpanFragRepr::emit;Ieee802154Repr::emit bounds=UDP_datagram_with_184_payload_octets:_exactly_two_full_frames;_payload,_checksum_and_extended_link_addresses_symbolic;_fragmenter_state_after_FRAG1_written_by_the_harness_(asserted_for_the_real_code_in_lowpan_frag_tx_185)
     #[kani::proof]
     pub(crate) fn lowpan_fragn_tx_184() {
         frag_tx_case::<184>(2, Via::Parts);
     }
 
-    // @harness props=C20 cfg=KL tier=q to=1500 mem=6 unwind=20 opts=nomem,fs256 covers=2 funcs=InterfaceInner::dispatch_ieee802154_frag;InterfaceInner::dispatch_sixlowpan_frag;SixlowpanFragRepr::emit;Ieee802154Repr::emit bounds=UDP_datagram_with_185_payload_octets:_two_full_frames_+_1_octet_=_3_frames;_payload,_checksum_and_extended_link_addresses_symbolic;_fragmenter_state_after_FRAG1_written_by_the_harness_(asserted_for_the_real_code_in_lowpan_frag_tx_185)
+    // @harness props=C20 cfg=KL tier=q to=1500 mem=4 unwind=20 opts=nomem,fs256 covers=2 funcs=InterfaceInner::dispatch_ieee802154_frag;InterfaceInner::dispatch_sixlowpan_frag;SixlowpanFragRepr::emit;Ieee802154Repr::emit bounds=UDP_datagram_with_185_payload_octets:_two_full_frames_+_1_octet_=_3_frames;_payload,_checksum_and_extended_link_addresses_symbolic;_fragmenter_state_after_FRAG1_written_by_the_harness_(asserted_for_the_real_code_in_lowpan_frag_tx_185)
     #[kani::proof]
     pub(crate) fn lowpan_fragn_tx_185() {
         frag_tx_case::<185>(3, Via::Parts);
@@ -1551,14 +1582,15 @@ mod v_iface_sixlowpan {
         lowpan_env!(dev, iface, hw);
         let Interface { inner, fragments, .. } = &mut iface;
         let r802 = ieee(Some(Ieee802154Address::Extended(g.sll)), Some(Ieee802154Address::Extended(g.dll)));
-        let (d1, _, _) = rx_feed(inner, fragments, &r802, &frag_frame(&g, first, GD as u8, g.tag, 6));
+        let k = any_lt(GD);
+        let (d1, _, _) = rx_feed(inner, fragments, &r802, &frag_frame(&g, first, GD as u8, g.tag, 6), k);
         assert!(!d1, "prop:c20_incomplete_datagram_not_delivered");
-        let (d2, n2, c2) = rx_feed(inner, fragments, &r802, &frag_frame(&g, 1 - first, GD as u8, g.tag, 6));
+        let (d2, n2, c2) = rx_feed(inner, fragments, &r802, &frag_frame(&g, 1 - first, GD as u8, g.tag, 6), k);
         assert!(d2, "prop:c20_delivered_exactly_when_complete_in_any_order");
         if d2 {
-            assert_is_ghost(&g, n2, &c2);
+            assert_is_ghost(&g, n2, k, c2);
         }
-        kani::cover!(d2 && c2[55] != c2[48], "delivered, data octets vary");
+        kani::cover!(d2 && k == 55 && c2 != 0, "delivered, last data octet compared");
     }
 
     /// slot state = genuine fragment `first` (0 = FRAG1, 1 = the FRAGN at offset 6) already received; step = a fragment
@@ -1572,7 +1604,8 @@ mod v_iface_sixlowpan {
         let Interface { inner, fragments, .. } = &mut iface;
         let r802 = ieee(Some(Ieee802154Address::Extended(g.sll)), Some(Ieee802154Address::Extended(g.dll)));
         let other = 1 - first;
-        let (d1, _, _) = rx_feed(inner, fragments, &r802, &frag_frame(&g, first, GD as u8, g.tag, 6));
+        let k = any_lt(GD);
+        let (d1, _, _) = rx_feed(inner, fragments, &r802, &frag_frame(&g, first, GD as u8, g.tag, 6), k);
         assert!(!d1, "prop:c20_incomplete_datagram_not_delivered");
         // the step
         let tag: u16 = kani::any();
@@ -1587,11 +1620,11 @@ mod v_iface_sixlowpan {
             // smaller FRAG1 sizes: finding of lowpan_frag_rx_free (subtraction overflow)
             kani::assume(size >= 48);
         }
-        let (ds, ns, cs) = rx_feed(inner, fragments, &r802, &frag_frame(&g, kind, size8, tag, offset));
+        let (ds, ns, cs) = rx_feed(inner, fragments, &r802, &frag_frame(&g, kind, size8, tag, offset), k);
         if genuine {
             assert!(ds == (kind == other), "prop:c20_delivered_exactly_when_complete_in_any_order");
             if ds {
-                assert_is_ghost(&g, ns, &cs);
+                assert_is_ghost(&g, ns, k, cs);
             }
         } else if ds {
             // a foreign fragment can only complete a datagram of its own (a FRAG1 that is the whole datagram)
@@ -1599,10 +1632,10 @@ mod v_iface_sixlowpan {
         }
         // the slot of the datagram in progress is intact: the missing fragment completes it
         if !(genuine && kind == other) {
-            let (df, nf, cf) = rx_feed(inner, fragments, &r802, &frag_frame(&g, other, GD as u8, g.tag, 6));
+            let (df, nf, cf) = rx_feed(inner, fragments, &r802, &frag_frame(&g, other, GD as u8, g.tag, 6), k);
             assert!(df, "prop:c20_foreign_or_duplicate_fragment_does_not_disturb_reassembly");
             if df {
-                assert_is_ghost(&g, nf, &cf);
+                assert_is_ghost(&g, nf, k, cf);
             }
         }
         kani::cover!(genuine, "genuine fragment (the missing one or a duplicate)");
@@ -1610,37 +1643,37 @@ mod v_iface_sixlowpan {
         kani::cover!(!genuine && size == GD as u16, "same size, foreign tag");
     }
 
-    // @harness props=C20 cfg=KL tier=q to=1500 mem=8 unwind=20 opts=nomem covers=1 funcs=InterfaceInner::process_sixlowpan_fragment;PacketAssemblerSet::get;PacketAssembler::set_total_size;PacketAssembler::add_with;PacketAssembler::add;PacketAssembler::assemble;InterfaceInner::sixlowpan_to_ipv6;decompress_udp bounds=ghost_datagram_of_56_octets_(fe80::IID_addresses_from_symbolic_extended_link_addresses,_UDP_ports/checksum/8_data_octets_symbolic,_symbolic_tag)_sent_as_FRAG1_(compressed_headers)_+_FRAGN_(offset_6,_8_octets);_arrival_order_FRAG1_then_FRAGN;_fresh_reassembly_buffers_(2_slots_of_256_octets);_UDP_checksum_field_not_compared
+    // @harness props=C20 cfg=KL tier=t to=3600 mem=16 unwind=20 opts=nomem covers=1 funcs=InterfaceInner::process_sixlowpan_fragment;PacketAssemblerSet::get;PacketAssembler::set_total_size;PacketAssembler::add_with;PacketAssembler::add;PacketAssembler::assemble;InterfaceInner::sixlowpan_to_ipv6;decompress_udp bounds=ghost_datagram_of_56_octets_(fe80::IID_addresses_from_symbolic_extended_link_addresses,_UDP_ports/checksum/8_data_octets_symbolic,_symbolic_tag)_sent_as_FRAG1_(compressed_headers)_+_FRAGN_(offset_6,_8_octets);_arrival_order_FRAG1_then_FRAGN;_fresh_reassembly_buffers_(2_slots_of_256_octets);_UDP_checksum_field_not_compared
     #[kani::proof]
     pub(crate) fn lowpan_frag_rx_pair_0() {
         frag_rx_pair(0);
     }
 
-    // @harness props=C20 cfg=KL tier=q to=1500 mem=8 unwind=20 opts=nomem covers=1 funcs=InterfaceInner::process_sixlowpan_fragment;PacketAssemblerSet::get;PacketAssembler::set_total_size;PacketAssembler::add_with;PacketAssembler::add;PacketAssembler::assemble;InterfaceInner::sixlowpan_to_ipv6;decompress_udp bounds=ghost_datagram_of_56_octets_(fe80::IID_addresses_from_symbolic_extended_link_addresses,_UDP_ports/checksum/8_data_octets_symbolic,_symbolic_tag)_sent_as_FRAG1_(compressed_headers)_+_FRAGN_(offset_6,_8_octets);_arrival_order_FRAGN_then_FRAG1_(out_of_order);_fresh_reassembly_buffers_(2_slots_of_256_octets);_UDP_checksum_field_not_compared
+    // @harness props=C20 cfg=KL tier=t to=3600 mem=16 unwind=20 opts=nomem covers=1 funcs=InterfaceInner::process_sixlowpan_fragment;PacketAssemblerSet::get;PacketAssembler::set_total_size;PacketAssembler::add_with;PacketAssembler::add;PacketAssembler::assemble;InterfaceInner::sixlowpan_to_ipv6;decompress_udp bounds=ghost_datagram_of_56_octets_(fe80::IID_addresses_from_symbolic_extended_link_addresses,_UDP_ports/checksum/8_data_octets_symbolic,_symbolic_tag)_sent_as_FRAG1_(compressed_headers)_+_FRAGN_(offset_6,_8_octets);_arrival_order_FRAGN_then_FRAG1_(out_of_order);_fresh_reassembly_buffers_(2_slots_of_256_octets);_UDP_checksum_field_not_compared
     #[kani::proof]
     pub(crate) fn lowpan_frag_rx_pair_1() {
         frag_rx_pair(1);
     }
 
-    // @harness props=C20,C03 cfg=KL tier=q to=1800 mem=8 unwind=20 opts=nomem covers=3 funcs=InterfaceInner::process_sixlowpan_fragment;PacketAssemblerSet::get;PacketAssembler::set_total_size;PacketAssembler::add_with;PacketAssembler::add;PacketAssembler::assemble;InterfaceInner::sixlowpan_to_ipv6 bounds=ghost_datagram_of_56_octets_(fe80::IID_addresses,_UDP,_8_data_octets,_all_values_symbolic)_sent_as_FRAG1_+_1_FRAGN_(13-octet_frames);_the_FRAGN_received_first;_step_=_a_FRAG1_(the_late_genuine_one_or_a_foreign_one)_with_symbolic_tag_and_datagram_size_<256_(>=48_for_a_foreign_FRAG1),_offset_6;_then_the_missing_fragment;_2_reassembly_slots_of_256_octets
+    // @harness props=C20,C03 cfg=KL tier=t to=3600 mem=16 unwind=20 opts=nomem covers=3 funcs=InterfaceInner::process_sixlowpan_fragment;PacketAssemblerSet::get;PacketAssembler::set_total_size;PacketAssembler::add_with;PacketAssembler::add;PacketAssembler::assemble;InterfaceInner::sixlowpan_to_ipv6 bounds=ghost_datagram_of_56_octets_(fe80::IID_addresses,_UDP,_8_data_octets,_all_values_symbolic)_sent_as_FRAG1_+_1_FRAGN_(13-octet_frames);_the_FRAGN_received_first;_step_=_a_FRAG1_(the_late_genuine_one_or_a_foreign_one)_with_symbolic_tag_and_datagram_size_<256_(>=48_for_a_foreign_FRAG1),_offset_6;_then_the_missing_fragment;_2_reassembly_slots_of_256_octets
     #[kani::proof]
     pub(crate) fn lowpan_frag_rx_step_1_0() {
         frag_rx_case(1, 0);
     }
 
-    // @harness props=C20,C03 cfg=KL tier=q to=1800 mem=8 unwind=20 opts=nomem covers=3 funcs=InterfaceInner::process_sixlowpan_fragment;PacketAssemblerSet::get;PacketAssembler::set_total_size;PacketAssembler::add_with;PacketAssembler::add;PacketAssembler::assemble;InterfaceInner::sixlowpan_to_ipv6 bounds=ghost_datagram_of_56_octets_(fe80::IID_addresses,_UDP,_8_data_octets,_all_values_symbolic)_sent_as_FRAG1_+_1_FRAGN_(13-octet_frames);_FRAG1_received;_step_=_a_FRAGN_(the_genuine_one_or_a_foreign_one)_with_symbolic_tag_and_datagram_size_<256_(>=48_for_a_foreign_FRAG1),_offset_6;_then_the_missing_fragment;_2_reassembly_slots_of_256_octets
+    // @harness props=C20,C03 cfg=KL tier=t to=3600 mem=16 unwind=20 opts=nomem covers=3 funcs=InterfaceInner::process_sixlowpan_fragment;PacketAssemblerSet::get;PacketAssembler::set_total_size;PacketAssembler::add_with;PacketAssembler::add;PacketAssembler::assemble;InterfaceInner::sixlowpan_to_ipv6 bounds=ghost_datagram_of_56_octets_(fe80::IID_addresses,_UDP,_8_data_octets,_all_values_symbolic)_sent_as_FRAG1_+_1_FRAGN_(13-octet_frames);_FRAG1_received;_step_=_a_FRAGN_(the_genuine_one_or_a_foreign_one)_with_symbolic_tag_and_datagram_size_<256_(>=48_for_a_foreign_FRAG1),_offset_6;_then_the_missing_fragment;_2_reassembly_slots_of_256_octets
     #[kani::proof]
     pub(crate) fn lowpan_frag_rx_step_0_1() {
         frag_rx_case(0, 1);
     }
 
-    // @harness props=C20,C03 cfg=KL tier=t to=1800 mem=8 unwind=20 opts=nomem covers=3 funcs=InterfaceInner::process_sixlowpan_fragment;PacketAssemblerSet::get;PacketAssembler::set_total_size;PacketAssembler::add_with;PacketAssembler::add;PacketAssembler::assemble;InterfaceInner::sixlowpan_to_ipv6 bounds=ghost_datagram_of_56_octets_(fe80::IID_addresses,_UDP,_8_data_octets,_all_values_symbolic)_sent_as_FRAG1_+_1_FRAGN_(13-octet_frames);_FRAG1_received;_step_=_a_FRAG1_(duplicate_or_foreign)_with_symbolic_tag_and_datagram_size_<256_(>=48_for_a_foreign_FRAG1),_offset_6;_then_the_missing_fragment;_2_reassembly_slots_of_256_octets
+    // @harness props=C20,C03 cfg=KL tier=t to=3600 mem=16 unwind=20 opts=nomem covers=3 funcs=InterfaceInner::process_sixlowpan_fragment;PacketAssemblerSet::get;PacketAssembler::set_total_size;PacketAssembler::add_with;PacketAssembler::add;PacketAssembler::assemble;InterfaceInner::sixlowpan_to_ipv6 bounds=ghost_datagram_of_56_octets_(fe80::IID_addresses,_UDP,_8_data_octets,_all_values_symbolic)_sent_as_FRAG1_+_1_FRAGN_(13-octet_frames);_FRAG1_received;_step_=_a_FRAG1_(duplicate_or_foreign)_with_symbolic_tag_and_datagram_size_<256_(>=48_for_a_foreign_FRAG1),_offset_6;_then_the_missing_fragment;_2_reassembly_slots_of_256_octets
     #[kani::proof]
     pub(crate) fn lowpan_frag_rx_step_0_0() {
         frag_rx_case(0, 0);
     }
 
-    // @harness props=C20,C03 cfg=KL tier=t to=1800 mem=8 unwind=20 opts=nomem covers=3 funcs=InterfaceInner::process_sixlowpan_fragment;PacketAssemblerSet::get;PacketAssembler::set_total_size;PacketAssembler::add_with;PacketAssembler::add;PacketAssembler::assemble;InterfaceInner::sixlowpan_to_ipv6 bounds=ghost_datagram_of_56_octets_(fe80::IID_addresses,_UDP,_8_data_octets,_all_values_symbolic)_sent_as_FRAG1_+_1_FRAGN_(13-octet_frames);_the_FRAGN_received;_step_=_a_FRAGN_(duplicate_or_foreign)_with_symbolic_tag_and_datagram_size_<256_(>=48_for_a_foreign_FRAG1),_offset_6;_then_the_missing_fragment;_2_reassembly_slots_of_256_octets
+    // @harness props=C20,C03 cfg=KL tier=t to=3600 mem=16 unwind=20 opts=nomem covers=3 funcs=InterfaceInner::process_sixlowpan_fragment;PacketAssemblerSet::get;PacketAssembler::set_total_size;PacketAssembler::add_with;PacketAssembler::add;PacketAssembler::assemble;InterfaceInner::sixlowpan_to_ipv6 bounds=ghost_datagram_of_56_octets_(fe80::IID_addresses,_UDP,_8_data_octets,_all_values_symbolic)_sent_as_FRAG1_+_1_FRAGN_(13-octet_frames);_the_FRAGN_received;_step_=_a_FRAGN_(duplicate_or_foreign)_with_symbolic_tag_and_datagram_size_<256_(>=48_for_a_foreign_FRAG1),_offset_6;_then_the_missing_fragment;_2_reassembly_slots_of_256_octets
     #[kani::proof]
     pub(crate) fn lowpan_frag_rx_step_1_1() {
         frag_rx_case(1, 1);
